@@ -72,6 +72,14 @@ func RunC04(c *Ctx) {
 	workload.W6Generic(nfl, th, c.Seed, local, mineIdx)
 	workload.W6Exponents(perExp, c.Seed, local, mineIdx)
 	workload.W6Special(hashed)
+	// every digit-run length 1..600 (and around 1024, 4096, 65536) in fraction and exponent position
+	workload.W1Len(func(cs *h.Case) {
+		if cs.P[2] == 0 {
+			if e, ok := refmodel.ScanNumber(cs.Input, 0); ok && e == len(cs.Input) {
+				hashed(cs)
+			}
+		}
+	})
 	// every number literal of the document pools, and the W1 number tokens
 	cs := &h.Case{Family: "pool"}
 	for _, lit := range append(append([]string{}, workload.NumPool...), workload.NumberTokens...) {
@@ -379,6 +387,12 @@ func RunC05(c *Ctx) {
 	workload.W1R(sink)
 	workload.W1Words(sink)
 	workload.W1First(sink)
+	workload.W1RL(sink)
+	workload.W1Len(func(cs *h.Case) {
+		if cs.P[2] == 0 {
+			sink(cs)
+		}
+	})
 	workload.W1D(func(cs *h.Case) {
 		if cs.P[3]>>8 <= 1 { // top-level contexts only
 			sink(cs)
